@@ -8,7 +8,7 @@ ID_CONT = ID_START + "0123456789"
 
 
 class Val(object):
-    """abstract value: kind in int, float, str, list, dict; how: preferred concrete form for strings"""
+    """abstract value: kind in int, float, str, list, dict; how: preferred concrete form for strings; for numbers the spelling to use (`1.00`, `+1`, `-0.`) or None"""
 
     def __init__(self, kind, v, how=None):
         self.kind, self.v, self.how = kind, v, how
@@ -148,10 +148,11 @@ def quote(s, q):
 class Layout(object):
     """random but reproducible layout choices"""
 
-    def __init__(self, rng, newline="\n", wild=True):
+    def __init__(self, rng, newline="\n", wild=True, one_line=False):
         self.rng = rng
         self.nl = newline
         self.wild = wild
+        self.one_line = one_line          # the whole program on one line: blanks vary (when wild), no line break, no comment, commands separated by a blank
 
     def ws(self, allow_nl=False):
         r = self.rng.random()
@@ -159,6 +160,8 @@ class Layout(object):
             return ""
         if r < 0.8:
             return self.rng.choice([" ", "  ", "\t"])
+        if self.one_line:
+            return " "
         if allow_nl and r < 0.93:
             return self.nl + self.rng.choice(["", "  ", "\t"])
         if allow_nl:
@@ -185,9 +188,9 @@ class Renderer(object):
 
     def scalar(self, v):
         if v.kind == "int":
-            self.emit(str(v.v))
+            self.emit(v.how or str(v.v))
         elif v.kind == "float":
-            self.emit(float_text(v.v))
+            self.emit(v.how or float_text(v.v))
         else:
             how = v.how
             if how == "bare" and not is_bare_safe(v.v):
@@ -240,7 +243,7 @@ class Renderer(object):
         parts = []
         for res, cmd, args in ast:
             # blank lines / comment lines before a command
-            while self.lay.wild and self.lay.rng.random() < 0.3:
+            while self.lay.wild and not self.lay.one_line and self.lay.rng.random() < 0.3:
                 self.emit(self.lay.rng.choice(["", "   ", "# comment line", "#", "\t# x = y(z)"]) + self.lay.nl)
             self.emit(res)
             self.gap()
@@ -265,7 +268,7 @@ class Renderer(object):
                     self.emit(",")
             self.gap()
             self.emit(")")
-            self.emit(self.lay.rng.choice([self.lay.nl, self.lay.nl, " " + self.lay.nl, " # trailing" + self.lay.nl, self.lay.nl * 2]) if self.lay.wild else self.lay.nl)
+            self.emit(" " if self.lay.one_line else self.lay.rng.choice([self.lay.nl, self.lay.nl, " " + self.lay.nl, " # trailing" + self.lay.nl, self.lay.nl * 2]) if self.lay.wild else self.lay.nl)
             parts.append("cmd(%s,%s,%d,[%s])" % (enc_str(res), enc_str(cmd), cl, ",".join(aparts)))
         return "".join(self.out), "ok v3 " + " ".join(parts)
 
@@ -274,10 +277,64 @@ def canon_scalar(v):
     if v.kind == "int":
         return "i:%d" % v.v
     if v.kind == "float":
-        return "f:" + float(v.v).hex()
+        return "f:" + (0.0 if v.v == 0 else float(v.v)).hex()        # (the canonical text does not carry the sign of zero - see parsing.canon_expr; `exact` below does)
     return "s:" + enc_str(v.v)
 
 
-def render(ast, rng, newline="\n", wild=True):
+def render(ast, rng, newline="\n", wild=True, one_line=False):
     """returns (source text, expected canonical parse tree with the true lines)"""
-    return Renderer(Layout(rng, newline, wild)).program(ast)
+    return Renderer(Layout(rng, newline, wild, one_line)).program(ast)
+
+
+# ---------------------------------------------------------------- numbers of equal value and different kind, side by side
+
+def _n(kind, v, how=None):
+    return Val(kind, v, how)
+
+
+# each group: values that compare equal (and hash alike) in Python although they are different values of the command language - an integer and a decimal,
+# a decimal zero and its negative, different spellings of one number - plus texts that look like them (quoted digits, the bare word True)
+KIND_GROUPS = [
+    [_n("int", 1), _n("float", 1.0), _n("float", 1.0, "1.00"), _n("int", 1, "+1"), _n("float", 1.0, "1."), _n("float", 1.0, "10.0e-1"), Val("str", "1", "dq"), Val("str", "1.0", "sq"), Val("str", "True", "bare")],
+    [_n("int", 0), _n("float", 0.0), _n("float", -0.0, "-0.0"), _n("int", 0, "-0"), _n("float", 0.0, "0."), _n("float", -0.0, "-0."), _n("float", 0.0, ".0"), _n("float", -0.0, "-.0"), _n("float", -0.0, "-0.0e3"),
+     _n("int", 0, "+0"), _n("float", 0.0, "+0.0"), Val("str", "False", "bare"), Val("str", "0", "dq")],
+    [_n("float", -0.0, "-0.0"), _n("float", 0.0), _n("int", 0)],
+    [_n("int", 2), _n("float", 2.0), _n("float", 2.0, "2.00"), _n("float", 2.0, "0.2e1"), Val("str", "2", "sq")],
+    [_n("float", -3.0), _n("int", -3), _n("float", -3.0, "-3.00"), _n("float", -3.0, "-30.0E-1")],
+    [_n("int", 10), _n("float", 10.0), _n("float", 10.0, "1.0e1"), _n("int", 100), _n("float", 100.0, "1.0e2"), _n("float", 100.0)],
+    [_n("int", 2 ** 53), _n("float", 9007199254740992.0), _n("int", 2 ** 53 + 1), _n("float", 9007199254740992.0, "9007199254740992.00")],
+    [_n("float", 5.0), _n("int", 5), _n("int", 7), _n("float", 7.0), _n("int", 5), _n("float", 5.0, "5.")],
+]
+
+
+def kind_mix_asts(rng):
+    """abstract programs that put the members of one group next to each other: in a list, in nested lists, in a tuple, in separate arguments of one command
+    and in two commands - each in the listed order, reversed and shuffled (whichever spelling comes first must not decide what the later ones are read as)"""
+    out = []
+    for g, group in enumerate(KIND_GROUPS):
+        shuffled = list(group)
+        rng.shuffle(shuffled)
+        for o, vals in enumerate((list(group), list(reversed(group)), shuffled)):
+            tag = "g%d_%d" % (g, o)
+            nested = Val("list", [Val("list", [vals[0]]), Val("list", [vals[1], Val("list", list(vals[2:]))])] + [Val("list", [v]) for v in vals[1:3]])
+            out.append([("L" + tag, "Cmd", [("P", Val("list", list(vals)))])])
+            out.append([("N" + tag, "Cmd", [("P", nested), ("Q", vals[-1])])])
+            out.append([("T" + tag, "Cmd", [("P", Val("dict", [("k%d" % i, v) for i, v in enumerate(vals)]))])])
+            out.append([("A" + tag, "Cmd", [("p%d" % i, v) for i, v in enumerate(vals)])])
+            out.append([("C%s_%d" % (tag, i), "Cmd", [("P", v)] if i % 2 else [("P", v), ("Q", Val("list", [vals[0], v]))]) for i, v in enumerate(vals[:4])])
+    # long lists (70 / 150 entries) mixing the kinds of a few small numbers
+    pool = [v for group in KIND_GROUPS[:4] for v in group if v.kind != "str"]
+    for n in (70, 150):
+        out.append([("Long%d" % n, "Cmd", [("Weights", Val("list", [rng.choice(pool) for _ in range(n)])), ("Scale", rng.choice(pool))])])
+    return out
+
+
+def exact(ast):
+    """the program with every number's kind and exact value (sign of zero included): what `parsing.exact_parse` has to return for any rendering of it"""
+    def val(v):
+        if v.kind == "list":
+            return [val(x) for x in v.v]
+        if v.kind == "dict":
+            return {"tuple": sorted([k, val(x)] for k, x in v.v)}
+        return "%s:%s" % (v.kind, v.v if v.kind == "str" else repr(v.v))
+    return [[res, cmd, [[n, val(v)] for n, v in args]] for res, cmd, args in ast]
